@@ -37,8 +37,10 @@ Inductive res :=
 | OutOfFuel (site : nat)
 | Throw (e : exc).
 
-Definition seq (a b : res) : res := match a with Ok => b | _ => a end.
-Notation "a ;; b" := (seq a b) (at level 61, right associativity).
+(* sequencing stops at the first result that is not Ok; the continuation is a thunk so that the
+   extracted (strict) OCaml code does not run the loops that follow a failed check *)
+Definition seq (a : res) (b : unit -> res) : res := match a with Ok => b tt | _ => a end.
+Notation "a ;; b" := (seq a (fun _ : unit => b)) (at level 61, right associativity).
 
 Definition chk (site : nat) (i n : Z) : res :=
   if (0 <=? i) && (i <? n) then Ok else OOB site i n.
